@@ -1590,10 +1590,16 @@ func (r *Raft) appendEntries(rpc RPC, a *AppendEntriesRequest) {
 		metrics.MeasureSince([]string{"raft", "rpc", "appendEntries", "storeLogs"}, start)
 	}
 
-	// Update the commit index
-	if a.LeaderCommitIndex > 0 && a.LeaderCommitIndex > r.getCommitIndex() {
+	// Update the commit index. Only the prefix that this request verified
+	// against the leader's log may be committed: anything we hold beyond its
+	// last entry (or beyond PrevLogEntry when it carries none) can be a stale
+	// suffix of an older term. The commit index never moves backwards.
+	lastVerified := a.PrevLogEntry
+	if n := len(a.Entries); n > 0 {
+		lastVerified = a.Entries[n-1].Index
+	}
+	if idx := min(a.LeaderCommitIndex, lastVerified); idx > r.getCommitIndex() {
 		start := time.Now()
-		idx := min(a.LeaderCommitIndex, r.getLastIndex())
 		r.setCommitIndex(idx)
 		if r.configurations.latestIndex <= idx {
 			r.setCommittedConfiguration(r.configurations.latest, r.configurations.latestIndex)
